@@ -20,6 +20,7 @@ DECIDES = (
     "the i-th entry of the re-orienter's corner table intersects exactly the three sides that meet in corner i of the hexahedron "
     "convention and the write-back puts entries 0-3 on the bottom and 4-7 on the top face (C18.CORNER-TABLE); the frame literal "
     "has opposite vectors on opposite sides, front=+observer, top=+ceiling and (right, back, top) right-handed (C18.FRAME-SIGNS)."
+    " the finders' acceptance tests are purely absolute and strict, a plane distance is a projection onto a UNIT normal (part of C18.SCAN); viewing directions and distances are differences of points (C18.AFFINE-KINDS); a finder does not keep a reference to a list that clear()/backport() replaces (C18.STALE-ALIAS)."
 )
 NOT_DECIDED = "exactness for arbitrary geometry (floating-point distances), convex-hull grouping of triangles into sides."
 ASSUMPTIONS = ["positions are modelled as integers on a line; norm(a - b) is |a - b|"]
